@@ -47,6 +47,8 @@ const (
 	knownBrowserID = "C16-browser-map-recursion"
 	knownSideFxID  = "C16-sideeffects-regexp-panic"
 	knownStaticID  = "C16-static-block-in-object-literal"
+	knownCSSEOFID  = "C16-css-identifier-at-eof-hang"
+	knownDecoID    = "C16-decorator-export-default-internal-error"
 	watchdogWall   = 10 * time.Second // in-process suspicion threshold (≥100× the normal time of a ≤64 KB input)
 	hangCPU        = 20 * time.Second // CPU time of a fresh child after which the call counts as not terminating
 	hangWall       = 600 * time.Second
@@ -346,7 +348,20 @@ func tcaseKnownID(c TCase) string {
 	if l := loaderOf(c.Opt); (l == "local-css" || l == "global-css") && bits(c.Opt, bSourcemap, 2) != 0 && cssNameTruncated(c.Data) {
 		return knownNamesID
 	}
+	if strings.Contains(loaderOf(c.Opt), "css") && cssIdentAtEOF(c.Data) {
+		return knownCSSEOFID
+	}
 	return ""
+}
+
+// cssIdentAtEOF: the last byte of the input can be the last byte of a CSS identifier (css_lexer.RangeOfIdentifier
+// does not stop at the end of the file).
+func cssIdentAtEOF(b []byte) bool {
+	if len(b) == 0 {
+		return false
+	}
+	c := b[len(b)-1]
+	return c >= 0x80 || c == '-' || c == '_' || c >= 'a' && c <= 'z' || c >= 'A' && c <= 'Z' || c >= '0' && c <= '9'
 }
 
 // ----------------------------------------------------------------------------- core: run esbuild, apply the message oracle
@@ -694,8 +709,13 @@ func knownAfterTheFact(sub string, raw []byte, res coreResult) string {
 			return knownStaticID
 		}
 	}
+	if strings.Contains(res.BadMsg, "panic: Internal error") && exportDefaultAtRe.Match(caseBytes(sub, raw)) {
+		return knownDecoID
+	}
 	return ""
 }
+
+var exportDefaultAtRe = regexp.MustCompile(`export\s+default\s*@`)
 
 // ----------------------------------------------------------------------------- canary
 
